@@ -983,6 +983,8 @@ package ggql
 
 //@ spec isLeafT(x Type) bool = x != nil && !is(x, *List) && !is(x, *Object) && !is(x, *Schema) && !is(x, *Interface) && !is(x, *uuSchema) && !is(x, *NonNull) && !is(x, *Union) && is(x, OutCoercer)
 //@ func (*Root).resolve
+//@   -- which member of a union a value is, is decided by the Go type of that value itself
+//@   atcall[own-go-type]{C08} metaCheck: arg1 == rtypeof(obj)
 //@   check accumulate {C06}
 //@   requires[binding-locks-free]{C12} onlyRegistryLock(root)
 //@   decreases{C03} depth
